@@ -171,6 +171,7 @@ def run_matrix(chk, accepted, dbgs=(0, 1), args_of=lambda g: [(n, v) for (n, _, 
             assigns, exhaustive, dom = [list(g.fixed)], False, 1
         else:
             assigns, exhaustive, dom = witness_assignments(rng, g.witnesses)
+        assigns = [a for a in getattr(g, "extra_assign", []) if a not in assigns] + assigns
         if max_assign:
             assigns = assigns[:max_assign]
         g.exhaustive = exhaustive
@@ -239,3 +240,112 @@ def run_matrix(chk, accepted, dbgs=(0, 1), args_of=lambda g: [(n, v) for (n, _, 
     chk.extra["runs_ok"] = chk.extra.get("runs_ok", 0) + n_ok
     chk.extra["runs_failed"] = chk.extra.get("runs_failed", 0) + n_fail
     return jobs
+
+
+# ----------------------------------------------------------------------------- partially inspected witnesses
+def _pw_type(rng, d):
+    leaves = [("U", 0), ("U", 1), ("U", 2), ("U", 3), ("B",), gen.UNIT]
+    if d == 0:
+        return rng.choice(leaves)
+    c = rng.random()
+    if c < 0.42:
+        return ("E", _pw_type(rng, d - 1), _pw_type(rng, d - 1))
+    if c < 0.60:
+        return ("O", _pw_type(rng, d - 1))
+    if c < 0.85:
+        return ("T", tuple(_pw_type(rng, d - 1) for _ in range(rng.choice([1, 2, 2, 3]))))
+    if c < 0.90:
+        return ("A", _pw_type(rng, d - 1), rng.choice([1, 2, 3]))
+    return rng.choice(leaves)
+
+
+def _pw_inspect(rng, var, t, v, fresh, depth=0):
+    """statements that look at part of `var : t`; `v` guides the choices so that most paths succeed"""
+    from checks.c13 import assert_eq
+    k = t[0]
+    src = gen.ty_src
+    if k in ("B", "U"):
+        if rng.random() < 0.55:
+            return assert_eq(var, t, v, fresh)
+        return []
+    if k == "E":
+        a, b = t[1], t[2]
+        is_left = v[0] == "l"
+        act = rng.choices(["unwrap", "match-one", "match-both", "ignore"], [4, 3, 2, 1])[0]
+        if act == "ignore":
+            return []
+        if act == "unwrap":
+            side_left = is_left if rng.random() < 0.9 else not is_left
+            n = fresh()
+            if side_left:
+                pv = v[1] if is_left else gen.gen_val(rng, a)
+                return ["let %s: %s = unwrap_left::<%s>(%s);" % (n, src(a), src(b), var)] + _pw_inspect(rng, n, a, pv, fresh, depth + 1)
+            pv = v[2] if not is_left else gen.gen_val(rng, b)
+            return ["let %s: %s = unwrap_right::<%s>(%s);" % (n, src(b), src(a), var)] + _pw_inspect(rng, n, b, pv, fresh, depth + 1)
+        l, r = fresh(), fresh()
+        ls = _pw_inspect(rng, l, a, v[1] if is_left else gen.gen_val(rng, a), fresh, depth + 1)
+        rs = _pw_inspect(rng, r, b, v[2] if not is_left else gen.gen_val(rng, b), fresh, depth + 1)
+        if act == "match-one":
+            if (rng.random() < 0.7) == is_left:
+                rs = []
+            else:
+                ls = []
+        blk = lambda ss: "{ %s }" % " ".join(ss) if ss else "()"
+        return ["match %s { Left(%s: %s) => %s, Right(%s: %s) => %s, };" % (var, l, src(a), blk(ls), r, src(b), blk(rs))]
+    if k == "O":
+        a = t[1]
+        is_some = v[0] == "s"
+        act = rng.choices(["unwrap", "match", "is_none", "ignore"], [4, 3, 1, 1])[0]
+        if act == "ignore":
+            return []
+        if act == "is_none":
+            return ["assert!(is_none::<%s>(%s));" % (src(a), var)] if not is_some or rng.random() < 0.2 else []
+        n = fresh()
+        pv = v[1] if is_some else gen.gen_val(rng, a)
+        inner = _pw_inspect(rng, n, a, pv, fresh, depth + 1)
+        if act == "unwrap":
+            if not is_some and rng.random() < 0.9:
+                return []
+            return ["let %s: %s = unwrap(%s);" % (n, src(a), var)] + inner
+        blk = "{ %s }" % " ".join(inner) if inner else "()"
+        return ["match %s { None => (), Some(%s: %s) => %s, };" % (var, n, src(a), blk)]
+    if k in ("T", "A"):
+        comps = list(t[1]) if k == "T" else [t[1]] * t[2]
+        vals = list(v[1]) if k == "T" else list(v[2])
+        if not comps or rng.random() < 0.1:
+            return []
+        names = [fresh() if rng.random() < 0.6 else "_" for _ in comps]
+        if k == "T":
+            pat = "(%s,)" % names[0] if len(names) == 1 else "(%s)" % ", ".join(names)
+        else:
+            pat = "[%s]" % ", ".join(names)
+        out = ["let %s: %s = %s;" % (pat, src(t), var)]
+        for n, tt, vv in zip(names, comps, vals):
+            if n != "_":
+                out += _pw_inspect(rng, n, tt, vv, fresh, depth + 1)
+        return out
+    return []
+
+
+def partial_witness_programs(chk, n, label):
+    """programs that inspect only part of a (nested sum / product) witness: the inferred type of the witness node is then
+    smaller than the declared type, which is where satisfy has to re-type (prune) the supplied value"""
+    from checks.c08 import Prog
+    from checks.c13 import Fresh
+    out = []
+    for i in range(n):
+        rng = chk.sub_rng("%s/%d" % (label, i))
+        nw = rng.choice([1, 1, 2])
+        fresh = Fresh()
+        body, wits, guide = [], [], []
+        for j in range(nw):
+            t = _pw_type(rng, rng.choice([2, 3, 3, 4]))
+            v = gen.gen_val(rng, t)
+            body.append("let w%d: %s = witness::W%d;" % (j, gen.ty_src(t), j))
+            body += _pw_inspect(rng, "w%d" % j, t, v, fresh)
+            wits.append(("W%d" % j, t))
+            guide.append(("W%d" % j, v))
+        p = Prog("fn main() { %s }" % " ".join(body), wits, "%s/%d" % (label, i))
+        p.extra_assign = [guide]
+        out.append(p)
+    return out
